@@ -14,11 +14,16 @@ package paillier
 
 // Value relations between the cached numbers of a public key (established by NewPublicKey) and the size of N
 // (established by ValidateN: exactly 2048 bits).
-//@ pred pkvals(pk *PublicKey) := natval(pk.n.Modulus) == natval(pk.nNat) && natval(pk.nSquared.Modulus) == natval(pk.nNat) * natval(pk.nNat) && natval(pk.nPlusOne) == natval(pk.nNat) + 1 && natval(pk.nNat) > 0
-//@ pred pkvvals(pk PublicKey) := natval(pk.n.Modulus) == natval(pk.nNat) && natval(pk.nSquared.Modulus) == natval(pk.nNat) * natval(pk.nNat) && natval(pk.nPlusOne) == natval(pk.nNat) + 1 && natval(pk.nNat) > 0
+// sq(x) names x*x: the key invariant is stated with it so that the many functions that merely pass keys along carry no
+// nonlinear term; the functions that compute with N^2 unfold it (use sq)
+//@ spec fn sq(Int) Int
+//@ rawaxiom[sq] (forall ((x Int)) (! (= (sq x) (* x x)) :pattern ((sq x))))
+//@ pred pkvals(pk *PublicKey) := natval(pk.n.Modulus) == natval(pk.nNat) && natval(pk.nSquared.Modulus) == sq(natval(pk.nNat)) && natval(pk.nPlusOne) == natval(pk.nNat) + 1 && natval(pk.nNat) > 0
+//@ pred pkvvals(pk PublicKey) := natval(pk.n.Modulus) == natval(pk.nNat) && natval(pk.nSquared.Modulus) == sq(natval(pk.nNat)) && natval(pk.nPlusOne) == natval(pk.nNat) + 1 && natval(pk.nNat) > 0
 //@ pred pkbig(pk *PublicKey) := natval(pk.nNat) >= pow2(2047)
 
 //@ func NewPublicKey
+//@   use sq
 //@   nopanic[C05]
 //@   modifies nothing
 //@   allocates
@@ -54,6 +59,7 @@ package paillier
 // Encryption (C12): refuses (panics on) exactly the plaintexts outside [-(N-1)/2, (N-1)/2]; otherwise the
 // result is the textbook ciphertext (N+1)^m * nonce^N mod N^2.
 //@ func (PublicKey).EncWithNonce
+//@   use sq
 //@   nopanic[C05]
 //@   requires pkvok(pk) && pkvvals(pk) && m != nil && nonce != nil
 //@   use bits
